@@ -216,6 +216,11 @@ def gen_cases(draw):
                 kept.append(n)
             ns = kept
         return {"kind": kind, "names": ns, "excluded": excluded}
+    if draw(st.integers(0, 3)) == 0:
+        # titles that collide with the names de-duplication hands out (Foo, Foo -> Foo_1; explicit "Foo_1")
+        base = draw(st.sampled_from(["Foo", "foo", "my title", "a1b"]))
+        fam = [base, base, base + "_1", base + " 1", base.upper(), base + "_2", base + "_1_1"]
+        return {"kind": kind, "titles": draw(st.lists(st.sampled_from(fam), min_size=2, max_size=4))}
     titles = draw(st.lists(st.one_of(
         st.sampled_from(["string", "none", "object", "any", "list", "property", "array", "true", "日本", "123",
                          "my title", "My_Title", "a1b", "Foo", "foo", "Foo_1", "foo 1", "union", "maybe", "not"]),
